@@ -57,6 +57,18 @@ func init() {
 		scRewards(t, w, int(seed))
 		return w
 	}
+	scenarios["evidence"] = func(t *testing.T, seed int64) *World {
+		cfg := DefaultConfig()
+		cfg.Unbonding = 4 * 3600
+		cfg.ConsUnbonding = 3 * 3600
+		cfg.Tokens = []int64{3000000, 2000000, 2000000, 1000000}
+		w := NewWorld(t, cfg)
+		w.rec.Start()
+		w.rec.emit("p", "Scenario", map[string]any{"name": "evidence", "variant": int(seed)}, nil, nil)
+		w.Block("p", 5, nil)
+		scEvidence(t, w, int(seed))
+		return w
+	}
 	scenarios["scripted"] = func(t *testing.T, seed int64) *World {
 		sc := scripted[int(seed)%len(scripted)]
 		cfg := DefaultConfig()
